@@ -51,7 +51,7 @@ def gen_cases(tier: str, seed: int) -> List[Dict[str, Any]]:
     cases: List[Dict[str, Any]] = []
     for i in range(10 if q else 200):
         cases.append({"kind": "prim", "seed": derive_seed(seed, PROPERTY, "prim", i) % (2**31), "n": 20})
-    for i in range(256 if q else 4000):
+    for i in range(256 if q else 12000):
         rng = rng_for(seed, PROPERTY, "prof", i)
         name, f, b = _fmt_specs(rng)
         cases.append({"kind": "prog", "seed": derive_seed(seed, PROPERTY, i) % (2**31), "fmt": name, "fwd": f, "bwd": b,
